@@ -65,12 +65,15 @@ class SimpleCookieJar:
         return "; ".join(
             filter(
                 None,
-                sorted(
-                    [
-                        f"{k}={v.value}"
-                        for cookie in filter(None, cookies)
-                        for k, v in cookie.items()
-                    ]
-                ),
+                [
+                    f"{k}={value}"
+                    for k, value in sorted(
+                        [
+                            (k, v.value)
+                            for cookie in filter(None, cookies)
+                            for k, v in cookie.items()
+                        ]
+                    )
+                ],
             )
         )
